@@ -364,11 +364,13 @@ K = {
     "cmplt": lambda a, b: mask(fcmp("lt", a, b)),
     "cmpgt": lambda a, b: mask(fcmp("gt", a, b)),
     "cmpunord": lambda a, b: mask(bor(isnan(a), isnan(b))),
+    # ANDN: (NOT first source) AND second source
+    "andn": lambda a, b: ((~a) & b & M32) if is_c(a, b) else "(bvand (bvnot %s) %s)" % (T(a, 32), T(b, 32)),
     "paddd": lambda a, b: binop("bvadd", a, b, 32, lambda x, y: x + y),
     "pmulld": lambda a, b: binop("bvmul", a, b, 32, lambda x, y: x * y),
     "pcmpeqd": lambda a, b: (M32 if a == b else 0) if is_c(a, b) else mask("(= %s %s)" % (T(a, 32), T(b, 32))),
-    "psrlvd": lambda a, b: ((a >> b) if b < 32 else 0) if is_c(a, b) else
-    "(ite (bvugt %s #x0000001f) #x00000000 (bvlshr %s %s))" % (T(b, 32), T(a, 32), T(b, 32)),
+    # VPSRLVD: counts above 31 give 0 -- exactly SMT-LIB's bvlshr
+    "psrlvd": lambda a, b: ((a >> b) if b < 32 else 0) if is_c(a, b) else "(bvlshr %s %s)" % (T(a, 32), T(b, 32)),
 }
 
 
@@ -385,7 +387,7 @@ K["pcmpeqw"] = k_pcmpeqw
 SCALAR3 = {"vaddss": "add", "vsubss": "sub", "vmulss": "mul", "vdivss": "div", "vminss": "min", "vmaxss": "max",
            "vcmpeqss": "cmpeq", "vcmpltss": "cmplt", "vcmpgtss": "cmpgt"}
 SCALAR2 = {"addss": "add", "mulss": "mul", "divss": "div"}
-PACKED3 = {"vaddps": "add", "vsubps": "sub", "vmulps": "mul", "vdivps": "div", "vminps": "min", "vmaxps": "max",
+PACKED3 = {"vandnps": "andn", "vandnpd": "andn", "vpandn": "andn", "vaddps": "add", "vsubps": "sub", "vmulps": "mul", "vdivps": "div", "vminps": "min", "vmaxps": "max",
            "vandps": "and", "vandpd": "and", "vpand": "and", "vorps": "or", "vorpd": "or", "vpor": "or", "vxorps": "xor",
            "vxorpd": "xor", "vpxor": "xor", "vcmpeqps": "cmpeq", "vcmpltps": "cmplt", "vcmpgtps": "cmpgt",
            "vcmpunordps": "cmpunord", "vpaddd": "paddd", "vpmulld": "pmulld", "vpcmpeqd": "pcmpeqd",
